@@ -10,6 +10,42 @@ Every value is handed from the generated reader to the generated writer untouche
 import sys, os, importlib, inspect, traceback
 
 
+def cuts(R, W, infmt, infile, cutsfile):
+    """Feed every listed prefix of the input (in memory) to the reader, copying to an NDJSON writer; one result line per cut."""
+    import io
+    data = open(infile, "rb").read()
+    cs = [len(data)] + [int(x) for x in open(cutsfile).read().split()]
+    full = None
+    for k, c in enumerate(cs):
+        src = io.BytesIO(data[:c]) if infmt == "binary" else io.StringIO(data[:c].decode("utf-8", "ignore"))
+        out = io.StringIO()
+        status, what = "OK", ""
+        try:
+            w = W(out)
+            try:
+                r = R(src)
+                r.copy_to(w)
+                r.close()
+                w.close()
+            except BaseException:
+                try:
+                    w._stream.flush()
+                except Exception:
+                    pass
+                raise
+        except Exception as e:
+            status, what = "EXC", ("%s: %s" % (type(e).__name__, e)).replace("\n", " ")[:200]
+        text = out.getvalue()
+        if k == 0:
+            full = text
+            print("FULL %s %d %s" % (status, len(text), what), flush=True)
+            continue
+        last = text.rfind("\n")
+        complete = "" if last < 0 else text[:last + 1]
+        print("CUT %d %s %d %d %s" % (c, status, complete.count("\n"), 1 if full.startswith(complete) else 0, what), flush=True)
+    return 0
+
+
 def main():
     if len(sys.argv) < 9:
         print("usage error", file=sys.stderr)
@@ -26,6 +62,8 @@ def main():
     names = {"binary": "Binary%s", "ndjson": "NDJson%s"}
     R = getattr(m, names[infmt] % proto + "Reader")
     W = getattr(m, names[outfmt] % proto + "Writer")
+    if cmd == "cuts":
+        return cuts(R, W, infmt, infile, outfile)
     rc = 0
     src = infile
     if mode.startswith("short"):
